@@ -115,7 +115,8 @@ Index(D) ==
              sets |-> RevOf(D, n, "sets"), wsets |-> RevOf(D, n, "wsets")]],
    c |-> [c \in {cs[k] : k \in 1..Len(cs)} |->
             LET defs == ChDefs(D, c) IN
-            [prompts |-> Prompts(defs), defaults |-> Defaults(defs), members |-> Members(D, c)]]]
+            [prompts |-> Prompts(defs), defaults |-> Defaults(defs), members |-> Members(D, c),
+             deps |-> [k \in 1..Len(defs) |-> defs[k].dep]]]]
 
 ----------------------------------------------------------------------------
 (* Evaluation.  X: Index of the program.  U: option name -> user value or  *)
@@ -191,13 +192,24 @@ DirectDep(X, A, n) == LET ds == X.s[n].deps IN IF \E i \in 1..Len(ds) : EvalE(X,
 RevOn(X, A, rs) ==
   SelectSeq(rs, LAMBDA r : TypeX(X, r.src) = "bool" /\ A.core[r.src].val = "y" /\ EvalE(X, A, r.e.c) = 2)
 
+\* Defaults injected by a load under policy `sdkconfig` (KStore.LoadP): the option's defaults are
+\* replaced by the stored value, conditional on all of its `depends on` (A.inj.s / A.inj.c).
+RECURSIVE AndAll(_)
+AndAll(es) == IF es = <<>> THEN YES ELSE And(Head(es), AndAll(Tail(es)))
+InjAtom(type, v) == IF type = "bool" THEN <<v>> ELSE <<"c", v>>
+DefaultsOf(X, A, n) ==
+  IF A.inj.s[n] # NoVal THEN <<[v |-> InjAtom(X.s[n].type, A.inj.s[n]), c |-> AndAll(X.s[n].deps)]>>
+  ELSE X.s[n].defaults
+ChDefaultsOf(X, A, c) ==
+  IF A.inj.c[c] # NoVal THEN <<[m |-> A.inj.c[c], c |-> AndAll(X.c[c].deps)]>> ELSE X.c[c].defaults
+
 \* choice: the user's pick if visible, else the first default whose condition holds and whose
 \* member is visible, else the first visible member, else nothing
 MemberVis(X, A, m) == VisOf(X, A, X.s[m].prompts)
 SelOf(X, A, P, c) ==   \* A.mode[c] is already known
   IF A.mode[c] # 2 THEN NoVal
   ELSE IF P[c] # NoVal /\ MemberVis(X, A, P[c]) = 2 THEN P[c]
-  ELSE LET ds == X.c[c].defaults
+  ELSE LET ds == ChDefaultsOf(X, A, c)
            ok == {i \in 1..Len(ds) : EvalE(X, A, ds[i].c) = 2 /\ MemberVis(X, A, ds[i].m) = 2}
            ms == X.c[c].members
            vm == {i \in 1..Len(ms) : MemberVis(X, A, ms[i]) = 2}
@@ -221,7 +233,7 @@ Core(X, A, U, n) ==
     ELSE
       LET sel  == RevOn(X, A, S.selects) # <<>>
           imp  == RevOn(X, A, S.implies) # <<>> /\ DirectDep(X, A, n) = 2
-          ds   == S.defaults
+          ds   == DefaultsOf(X, A, n)
           di   == FirstTrue(X, A, ds)
           dval == IF di = 0 THEN 0 ELSE EvalE(X, A, ds[di].v)
           useU == vis = 2 /\ u # NoVal
@@ -246,7 +258,7 @@ Core(X, A, U, n) ==
         lit(r) == IF num THEN Norm(type, r.e.v[2]) ELSE AtomStr(X, A, r.e.v)
         userOk == vis = 2 /\ u # NoVal
                   /\ (num => (IsNum(type, u) /\ (ri = 0 \/ (lo <= NumOf(type, u) /\ NumOf(type, u) <= hi))))
-        ds    == S.defaults
+        ds    == DefaultsOf(X, A, n)
         di    == FirstTrue(X, A, ds)
         raw   == IF forced THEN [v |-> lit(sets[1]), s |-> "set"]
                  ELSE IF userOk THEN [v |-> u, s |-> "user"]
@@ -260,7 +272,8 @@ Core(X, A, U, n) ==
     IN [val |-> val, vis |-> vis, written |-> vis = 2 \/ raw.s \in {"set", "wset", "default"},
         forced |-> forced, src |-> raw.s, asg |-> ""]
 
-EmptyCtx == [core |-> <<>>, mode |-> <<>>, sel |-> <<>>]
+NoInj(X) == [s |-> [n \in DOMAIN X.s |-> NoVal], c |-> [c \in DOMAIN X.c |-> NoVal]]
+EmptyCtx(I) == [core |-> <<>>, mode |-> <<>>, sel |-> <<>>, inj |-> I]
 
 Step(X, U, P, A, o) ==
   IF o[1] = "s"
@@ -269,7 +282,8 @@ Step(X, U, P, A, o) ==
          IN [A1 EXCEPT !.sel = (o[2] :> SelOf(X, A1, P, o[2])) @@ @]
 
 \* the whole configuration: per option its Core record, per choice mode and selection
-Eval(X, ord, U, P) == FoldLeft(LAMBDA A, o : Step(X, U, P, A, o), EmptyCtx, ord)
+EvalI(X, ord, U, P, I) == FoldLeft(LAMBDA A, o : Step(X, U, P, A, o), EmptyCtx(I), ord)
+Eval(X, ord, U, P) == EvalI(X, ord, U, P, NoInj(X))
 
 ----------------------------------------------------------------------------
 (* Derived observations.                                                   *)
